@@ -48,12 +48,12 @@ def check(out, ctx):
     # termination: for grammars whose computed certificate passes WellFormed.wf_check (theorem C01_terminates)
     # the implementation must return on every input, and so must the model and the specification with the
     # bound the harness gives them
-    wf_g = [g for g in st["grammars"] if getattr(g, "wf", None) is True]
-    nwf_g = [g for g in st["grammars"] if getattr(g, "wf", None) is False]
+    wf_g = [g for g in st["grammars"] if getattr(g, "wf", None) is True or getattr(g, "wf_lr", None) is True]
+    nwf_g = [g for g in st["grammars"] if getattr(g, "wf", None) is False and getattr(g, "wf_lr", None) is not True]
     wf_cases = 0
     wf_fuel = 0
     for c in cases:
-        if getattr(c.g, "wf", None) is not True:
+        if getattr(c.g, "wf", None) is not True and getattr(c.g, "wf_lr", None) is not True:
             continue
         wf_cases += 1
         if c.impl["k"] in ("TIMEOUT", "CRASH"):
